@@ -1475,10 +1475,23 @@ func Gen(r *hx.Rand, o GenOpts) History {
 		}
 	}
 	next := make([]int, n)
+	// late entries: published only after the timers of the push phase have fired, their pushes all
+	// lost (no gap is ever seen for them): only the final recovery signal can bring them in
+	limit := make([]int, n)
+	late := r.Chance(1, 2)
+	for s := range perSeq {
+		limit[s] = len(perSeq[s])
+		if late {
+			limit[s] -= r.Intn(3)
+			if limit[s] < 0 {
+				limit[s] = 0
+			}
+		}
+	}
 	var delayed, pushedOnce []int
 	remaining := func() bool {
 		for s := range perSeq {
-			if next[s] < len(perSeq[s]) {
+			if next[s] < limit[s] {
 				return true
 			}
 		}
@@ -1490,7 +1503,7 @@ func Gen(r *hx.Rand, o GenOpts) History {
 		// publish 1..3 next entries of random sequences
 		for k := r.Range(1, 3); k > 0 && remaining(); k-- {
 			s := r.Intn(len(perSeq))
-			for next[s] >= len(perSeq[s]) {
+			for next[s] >= limit[s] {
 				s = (s + 1) % len(perSeq)
 			}
 			e := perSeq[s][next[s]]
@@ -1567,12 +1580,12 @@ func Gen(r *hx.Rand, o GenOpts) History {
 		}
 	}
 	variant := 0
-	switch x := r.Intn(10); {
-	case x < 4:
+	switch x := r.Intn(20); {
+	case x < 6:
 		variant = 0
-	case x < 6 || !numbered:
+	case x < 10 || !numbered:
 		variant = 1
-	case x < 8:
+	case x < 15:
 		variant = 2
 	default:
 		variant = 3
@@ -1580,7 +1593,13 @@ func Gen(r *hx.Rand, o GenOpts) History {
 	if !numbered && variant == 1 && r.Chance(1, 2) {
 		variant = 0
 	}
-	h.Ops = append(h.Ops, FinalOpsVariant(h.Cfg, vis, variant, numbered, &cid)...)
+	after := append([]int(nil), vis...)
+	for s := range perSeq {
+		if k := len(perSeq[s]); k > 0 {
+			after[s] = perSeq[s][k-1].Pos
+		}
+	}
+	h.Ops = append(h.Ops, FinalOpsVariant(h.Cfg, vis, after, variant, numbered, &cid)...)
 	return h
 }
 
@@ -1588,7 +1607,7 @@ func Gen(r *hx.Rand, o GenOpts) History {
 // channel (updateChannelTooLong), then wait for timers again.
 func FinalOps(cfg Config, vis []int) []Op {
 	cid := 800000
-	return FinalOpsVariant(cfg, vis, 0, false, &cid)
+	return FinalOpsVariant(cfg, vis, vis, 0, false, &cid)
 }
 
 // FinalOpsVariant: the common recovery signal is
@@ -1597,7 +1616,9 @@ func FinalOps(cfg Config, vis []int) []Op {
 //	1: updatePtsChanged in one container (numbered with the next seq if numbered)
 //	2: numbered containers k+1 {updatePtsChanged}, k+2 {} delivered as k+2, k+1 (one applySeq batch)
 //	3: numbered containers k+1 {}, k+2 {updatePtsChanged} delivered as k+2, k+1
-func FinalOpsVariant(cfg Config, vis []int, variant int, numbered bool, cid *int) []Op {
+//
+// vis is the horizon while the timers of the push phase fire, after the horizon from then on.
+func FinalOpsVariant(cfg Config, vis, after []int, variant int, numbered bool, cid *int) []Op {
 	n := cfg.NSeq()
 	v := append([]int(nil), vis...)
 	for len(v) <= n {
@@ -1605,6 +1626,9 @@ func FinalOpsVariant(cfg Config, vis []int, variant int, numbered bool, cid *int
 	}
 	cp := func() []int { return append([]int(nil), v...) }
 	ops := []Op{{K: OpWaitTimers, Vis: cp()}}
+	for i := 0; i < n && i < len(after); i++ {
+		v[i] = after[i]
+	}
 	mk := func(seqno int, pc bool) Op {
 		*cid++
 		return Op{K: OpPush, CID: *cid, SeqNo: seqno, PtsChanged: pc}
